@@ -1,7 +1,416 @@
-import RbdlProofs.Lemmas.Rot
-/- C13 — property theorems (being filled in) -/
+import RbdlProofs.Lemmas.L13Ex
+/-
+  C13 — results do not depend on the workspace.
+
+  `WSFixed m w` (Rbdl/WSInv.lean): `X_base[0]` is the identity and every movable body still holds its
+  construction-time values in the entries that no algorithm rewrites before reading them.
+  Helper notions (RbdlProofs/Lemmas/L13*.lean):
+  * `L13.AxesOK m`     — a joint of type revoluteX/Y/Z stores the axis its type names;
+  * `L13.TreeOrder m`  — `λ(i) < i` for every movable body;
+  * `L13.AllJcalc m`   — every movable body carries a joint of a type `jcalc` handles;
+  * `L13.AllJointOK m` — ... and `mDoFCount` matches the joint type (1 for the 1-DoF types, 3 for
+    spherical / Euler / translationXYZ);
+  * `L13.xbIdx m id`, `L13.IdOK m id` — the movable body a body id refers to is a body of the model;
+  * `L13.UOrderOK m` / `L13.UOrderPerm m` — `mJointUpdateOrder` (read by `NonlinearEffects` and
+    `CalcMInvTimesTau`) lists exactly the movable bodies.
+
+  Findings.
+  * 3 (preservation) needs no hypothesis at all.
+  * 4 as literally requested ("`WSFixed`, `WSFixed`, tree order ⊢ equal results") is false for
+    arbitrary `ModelS` values: the joints must be of the types `jcalc` handles, `mDoFCount` must match
+    the type, body ids must resolve, `mJointUpdateOrder` must cover the bodies.  Each of these
+    hypotheses holds for models built by `AddBody`; a machine-checked counterexample for each is
+    kept after section 4, and `wsfixed_needed` (section 6) shows that `WSFixed` itself cannot be
+    dropped.  All results are equal as whole functions (not only below `dofCount`).
+  * 5: the coordinate / Jacobian pairs hold by unfolding; the velocity / acceleration pairs need no
+    hypothesis (clearing `v[0]`, `a[0]` commutes with the update); the `crba` pair needs `WSFixed`
+    (counterexample kept).
+  * The method (RbdlProofs/Lemmas/L13Agree.lean): `Agree m D w w'` — both workspaces reachable and
+    equal on the set `D` of (field, body) entries; every primitive write has a lemma that extends `D`
+    by the entry written provided the entries read are in `D`; loops are handled by the indexed
+    simulation lemmas `forUp_simI` / `forDown_simI`.
+-/
 namespace Rbdl.C13
-open Lean.Grind Rbdl
-variable {α : Type} [CommRing α]
-theorem placeholder_rot_one : (M3.one : M3 α).IsRot := M3.isRot_one
+open Lean.Grind Rbdl Rbdl.L13
+set_option linter.unusedSectionVars false
+
+variable {α : Type} [Field α]
+
+/-! ## 1. the workspace after construction is reachable -/
+
+theorem wsfixed_init (m : ModelS α) (hax : AxesOK m) : WSFixed m (initWS m) :=
+  wsfixed_initWS m hax
+example : WSFixed Ex.m (initWS Ex.m) := wsfixed_init Ex.m Ex.m_axes
+
+/-- the joints made by the `Joint` constructors satisfy `AxesOK` -/
+theorem axes_ofType (t : JT) (j : Joint α) (h : Joint.ofType t = some j) :
+    (j.jt = .revoluteX → j.axes.headD SV.zero = sv6 1 0 0 0 0 0) ∧
+    (j.jt = .revoluteY → j.axes.headD SV.zero = sv6 0 1 0 0 0 0) ∧
+    (j.jt = .revoluteZ → j.axes.headD SV.zero = sv6 0 0 1 0 0 0) := by
+  cases t <;> simp only [Joint.ofType, Option.some.injEq, reduceCtorEq] at h <;> subst h <;>
+    refine ⟨?_, ?_, ?_⟩ <;> intro h <;> first | rfl | cases h
+
+theorem axes_ofAxis [DecidableEq α] (a : SV α) :
+    ((Joint.ofAxis a).jt = .revoluteX → (Joint.ofAxis a).axes.headD SV.zero = sv6 1 0 0 0 0 0) ∧
+    ((Joint.ofAxis a).jt = .revoluteY → (Joint.ofAxis a).axes.headD SV.zero = sv6 0 1 0 0 0 0) ∧
+    ((Joint.ofAxis a).jt = .revoluteZ → (Joint.ofAxis a).axes.headD SV.zero = sv6 0 0 1 0 0 0) := by
+  unfold Joint.ofAxis
+  dsimp only [List.headD]
+  refine ⟨?_, ?_, ?_⟩ <;> intro h <;> (repeat' split at h) <;> simp_all
+
+/-! ## 2. poisoning the free entries stays inside the invariant -/
+
+theorem wsfixed_poison (m : ModelS α) (w : WS α) (seed : Nat) (h : WSFixed m w) :
+    WSFixed m (poison m w seed) := L13.wsfixed_poison m w seed h
+example : WSFixed Ex.m (poison Ex.m Ex.w 7) := wsfixed_poison Ex.m Ex.w 7 Ex.w_fixed
+
+/-! ## 3. every routine keeps the invariant (no hypothesis on the model or the arguments) -/
+section preserved
+variable (m : ModelS α) (w : WS α) (h : WSFixed m w)
+include h
+
+theorem wsfixed_preserved_jcalc (i : Nat) (st : QS α) (qd : VecN α) :
+    WSFixed m (jcalc m w i st qd) := wsfixed_jcalc m w i st qd h
+theorem wsfixed_preserved_jcalcXlambdaS (i : Nat) (st : QS α) :
+    WSFixed m (jcalcXlambdaS m w i st) := wsfixed_jcalcXlambdaS m w i st h
+theorem wsfixed_preserved_updateKinematics (st : QS α) (qd qdd : VecN α) :
+    WSFixed m (updateKinematics m w st qd qdd) := wsfixed_updateKinematics m w st qd qdd h
+theorem wsfixed_preserved_updateKinematicsCustom (st : Option (QS α)) (qd qdd : Option (VecN α)) :
+    WSFixed m (updateKinematicsCustom m w st qd qdd) :=
+  wsfixed_updateKinematicsCustom m w st qd qdd h
+theorem wsfixed_preserved_inverseDynamics (st : QS α) (qd qdd tau : VecN α)
+    (fext : Option (Nat → SV α)) : WSFixed m (inverseDynamics m w st qd qdd tau fext).1 :=
+  wsfixed_inverseDynamics m w st qd qdd tau fext h
+theorem wsfixed_preserved_nonlinearEffects [DecidableEq α] (st : QS α) (qd tau : VecN α)
+    (fext : Option (Nat → SV α)) : WSFixed m (nonlinearEffects m w st qd tau fext).1 :=
+  wsfixed_nonlinearEffects m w st qd tau fext h
+theorem wsfixed_preserved_crba (st : QS α) (H : MatN α) (update : Bool) :
+    WSFixed m (crba m w st H update).1 := wsfixed_crba m w st H update h
+theorem wsfixed_preserved_forwardDynamics [DecidableEq α] (st : QS α) (qd tau qdd : VecN α)
+    (fext : Option (Nat → SV α)) : WSFixed m (forwardDynamics m w st qd tau qdd fext).1 :=
+  wsfixed_forwardDynamics m w st qd tau qdd fext h
+/-- with `update = true` this routine sets `v_J[i] := 0`: still inside the invariant -/
+theorem wsfixed_preserved_calcMInvTimesTau [DecidableEq α] (st : QS α) (tau qdd : VecN α) (update : Bool) :
+    WSFixed m (calcMInvTimesTau m w st tau qdd update).1 :=
+  wsfixed_calcMInvTimesTau m w st tau qdd update h
+theorem wsfixed_preserved_calcCenterOfMass (st : QS α) (qd : VecN α) (qdd : Option (VecN α))
+    (wantAcc update : Bool) : WSFixed m (calcCenterOfMass m w st qd qdd wantAcc update).1 :=
+  wsfixed_calcCenterOfMass m w st qd qdd wantAcc update h
+theorem wsfixed_preserved_calcZeroMomentPoint (st : QS α) (qd qdd : VecN α) (normal point : V3 α)
+    (update : Bool) : WSFixed m (calcZeroMomentPoint m w st qd qdd normal point update).1 :=
+  wsfixed_calcZeroMomentPoint m w st qd qdd normal point update h
+theorem wsfixed_preserved_calcPotentialEnergy (st : QS α) (update : Bool) :
+    WSFixed m (calcPotentialEnergy m w st update).1 := wsfixed_calcPotentialEnergy m w st update h
+theorem wsfixed_preserved_calcKineticEnergy (st : QS α) (qd : VecN α) (update : Bool) :
+    WSFixed m (calcKineticEnergy m w st qd update).1 :=
+  wsfixed_calcKineticEnergy m w st qd update h
+theorem wsfixed_preserved_calcBodyToBaseCoordinates (st : QS α) (id : Nat) (p : V3 α)
+    (update : Bool) : WSFixed m (calcBodyToBaseCoordinates m w st id p update).1 :=
+  wsfixed_calcBodyToBaseCoordinates m w st id p update h
+theorem wsfixed_preserved_calcBaseToBodyCoordinates (st : QS α) (id : Nat) (p : V3 α)
+    (update : Bool) : WSFixed m (calcBaseToBodyCoordinates m w st id p update).1 :=
+  wsfixed_calcBaseToBodyCoordinates m w st id p update h
+theorem wsfixed_preserved_calcBodyWorldOrientation (st : QS α) (id : Nat) (update : Bool) :
+    WSFixed m (calcBodyWorldOrientation m w st id update).1 :=
+  wsfixed_calcBodyWorldOrientation m w st id update h
+theorem wsfixed_preserved_calcPointJacobian (st : QS α) (id : Nat) (p : V3 α) (G : MatN α)
+    (update : Bool) : WSFixed m (calcPointJacobian m w st id p G update).1 :=
+  wsfixed_calcPointJacobian m w st id p G update h
+theorem wsfixed_preserved_calcPointJacobian6D (st : QS α) (id : Nat) (p : V3 α) (G : MatN α)
+    (update : Bool) : WSFixed m (calcPointJacobian6D m w st id p G update).1 :=
+  wsfixed_calcPointJacobian6D m w st id p G update h
+theorem wsfixed_preserved_calcBodySpatialJacobian (st : QS α) (id : Nat) (G : MatN α)
+    (update : Bool) : WSFixed m (calcBodySpatialJacobian m w st id G update).1 :=
+  wsfixed_calcBodySpatialJacobian m w st id G update h
+theorem wsfixed_preserved_calcPointVelocity6D (st : QS α) (qd : VecN α) (id : Nat) (p : V3 α)
+    (update : Bool) : WSFixed m (calcPointVelocity6D m w st qd id p update).1 :=
+  wsfixed_calcPointVelocity6D m w st qd id p update h
+theorem wsfixed_preserved_calcPointVelocity (st : QS α) (qd : VecN α) (id : Nat) (p : V3 α)
+    (update : Bool) : WSFixed m (calcPointVelocity m w st qd id p update).1 :=
+  wsfixed_calcPointVelocity m w st qd id p update h
+theorem wsfixed_preserved_calcPointAcceleration6D (st : QS α) (qd qdd : VecN α) (id : Nat)
+    (p : V3 α) (update : Bool) : WSFixed m (calcPointAcceleration6D m w st qd qdd id p update).1 :=
+  wsfixed_calcPointAcceleration6D m w st qd qdd id p update h
+theorem wsfixed_preserved_calcPointAcceleration (st : QS α) (qd qdd : VecN α) (id : Nat)
+    (p : V3 α) (update : Bool) : WSFixed m (calcPointAcceleration m w st qd qdd id p update).1 :=
+  wsfixed_calcPointAcceleration m w st qd qdd id p update h
+
+end preserved
+
+example := wsfixed_preserved_forwardDynamics Ex.mU Ex.wU' Ex.wU'_fixed Ex.st Ex.qd Ex.qdd Ex.qdd none
+example := wsfixed_preserved_calcMInvTimesTau Ex.mU Ex.wU' Ex.wU'_fixed Ex.st Ex.qd Ex.qdd true
+example := wsfixed_preserved_calcPointAcceleration Ex.m Ex.w' Ex.w'_fixed Ex.st Ex.qd Ex.qdd
+  Ex.fid ⟨1, 2, 3⟩ true
+
+/-! ## 4. the results do not depend on the (reachable) workspace
+
+  All statements are for the routines called with the full state (`update = true` where there is a
+  flag).  Vector / matrix results are equal as whole functions (given the same in/out argument). -/
+section independent
+variable (m : ModelS α) {w w' : WS α} (hw : WSFixed m w) (hw' : WSFixed m w')
+include hw hw'
+
+theorem ws_independent_calcBodyToBaseCoordinates (htree : TreeOrder m) (hjc : AllJcalc m)
+    (st : QS α) (id : Nat) (p : V3 α) (hid : xbIdx m id < m.nBodies) :
+    (calcBodyToBaseCoordinates m w st id p true).2
+      = (calcBodyToBaseCoordinates m w' st id p true).2 :=
+  (updQ_sim m st htree hjc w w' hw hw').bodyToBase0 id p (Dpos_X_base m _ hid)
+
+theorem ws_independent_calcBaseToBodyCoordinates (htree : TreeOrder m) (hjc : AllJcalc m)
+    (st : QS α) (id : Nat) (p : V3 α) (hid : xbIdx m id < m.nBodies) :
+    (calcBaseToBodyCoordinates m w st id p true).2
+      = (calcBaseToBodyCoordinates m w' st id p true).2 :=
+  (updQ_sim m st htree hjc w w' hw hw').baseToBody0 id p (Dpos_X_base m _ hid)
+
+theorem ws_independent_calcBodyWorldOrientation (htree : TreeOrder m) (hjc : AllJcalc m)
+    (st : QS α) (id : Nat) (hid : xbIdx m id < m.nBodies) :
+    (calcBodyWorldOrientation m w st id true).2 = (calcBodyWorldOrientation m w' st id true).2 :=
+  ((updQ_sim m st htree hjc w w' hw hw').worldOrientation0 id (Dpos_X_base m _ hid)).2
+
+theorem ws_independent_calcPointVelocity6D (htree : TreeOrder m) (hjc : AllJcalc m)
+    (st : QS α) (qd : VecN α) (id : Nat) (p : V3 α) (hid : IdOK m id) :
+    (calcPointVelocity6D m w st qd id p true).2 = (calcPointVelocity6D m w' st qd id p true).2 :=
+  pointVelocity6D_indep m st qd id p htree hjc hid w w' hw hw'
+
+theorem ws_independent_calcPointVelocity (htree : TreeOrder m) (hjc : AllJcalc m)
+    (st : QS α) (qd : VecN α) (id : Nat) (p : V3 α) (hid : IdOK m id) :
+    (calcPointVelocity m w st qd id p true).2 = (calcPointVelocity m w' st qd id p true).2 :=
+  congrArg SV.v (pointVelocity6D_indep m st qd id p htree hjc hid w w' hw hw')
+
+theorem ws_independent_calcPointAcceleration6D (htree : TreeOrder m) (hok : AllJointOK m)
+    (st : QS α) (qd qdd : VecN α) (id : Nat) (p : V3 α) (hid : IdOK m id) :
+    (calcPointAcceleration6D m w st qd qdd id p true).2
+      = (calcPointAcceleration6D m w' st qd qdd id p true).2 :=
+  pointAcceleration6D_indep m st qd qdd id p htree hok hid w w' hw hw'
+
+theorem ws_independent_calcPointAcceleration (htree : TreeOrder m) (hok : AllJointOK m)
+    (st : QS α) (qd qdd : VecN α) (id : Nat) (p : V3 α) (hid : IdOK m id) :
+    (calcPointAcceleration m w st qd qdd id p true).2
+      = (calcPointAcceleration m w' st qd qdd id p true).2 :=
+  congrArg SV.v (pointAcceleration6D_indep m st qd qdd id p htree hok hid w w' hw hw')
+
+theorem ws_independent_calcPointJacobian (htree : TreeOrder m) (hok : AllJointOK m)
+    (st : QS α) (id : Nat) (p : V3 α) (G : MatN α) (hid : IdOK m id) :
+    (calcPointJacobian m w st id p G true).2 = (calcPointJacobian m w' st id p G true).2 :=
+  pointJacobian_indep m st id p G htree hok hid w w' hw hw'
+
+theorem ws_independent_calcPointJacobian6D (htree : TreeOrder m) (hok : AllJointOK m)
+    (st : QS α) (id : Nat) (p : V3 α) (G : MatN α) (hid : IdOK m id) :
+    (calcPointJacobian6D m w st id p G true).2 = (calcPointJacobian6D m w' st id p G true).2 :=
+  pointJacobian6D_indep m st id p G htree hok hid w w' hw hw'
+
+theorem ws_independent_calcBodySpatialJacobian (htree : TreeOrder m) (hok : AllJointOK m)
+    (st : QS α) (id : Nat) (G : MatN α) (hid : IdOK m id) :
+    (calcBodySpatialJacobian m w st id G true).2 = (calcBodySpatialJacobian m w' st id G true).2 :=
+  bodySpatialJacobian_indep m st id G htree hok hid w w' hw hw'
+
+theorem ws_independent_inverseDynamics (htree : TreeOrder m) (hok : AllJointOK m)
+    (st : QS α) (qd qdd tau : VecN α) (fext : Option (Nat → SV α)) :
+    (inverseDynamics m w st qd qdd tau fext).2 = (inverseDynamics m w' st qd qdd tau fext).2 :=
+  id_indep m st qd qdd tau fext htree hok w w' hw hw'
+
+theorem ws_independent_nonlinearEffects [DecidableEq α] (htree : TreeOrder m)
+    (hok : AllJointOK m) (huo : UOrderOK m) (st : QS α) (qd tau : VecN α)
+    (fext : Option (Nat → SV α)) :
+    (nonlinearEffects m w st qd tau fext).2 = (nonlinearEffects m w' st qd tau fext).2 :=
+  ne_indep m st qd tau fext htree hok huo w w' hw hw'
+
+theorem ws_independent_crba (htree : TreeOrder m) (hok : AllJointOK m) (st : QS α)
+    (H : MatN α) : (crba m w st H true).2 = (crba m w' st H true).2 :=
+  crba_indep m st H htree hok w w' hw hw'
+
+theorem ws_independent_forwardDynamics [DecidableEq α] (htree : TreeOrder m)
+    (hok : AllJointOK m) (st : QS α) (qd tau qdd : VecN α) (fext : Option (Nat → SV α)) :
+    (forwardDynamics m w st qd tau qdd fext).2 = (forwardDynamics m w' st qd tau qdd fext).2 :=
+  fd_indep m st qd tau qdd fext htree hok w w' hw hw'
+
+theorem ws_independent_calcMInvTimesTau [DecidableEq α] (htree : TreeOrder m)
+    (hok : AllJointOK m) (huo : UOrderPerm m) (st : QS α) (tau qdd : VecN α) :
+    (calcMInvTimesTau m w st tau qdd true).2 = (calcMInvTimesTau m w' st tau qdd true).2 :=
+  mi_indep m st tau qdd htree hok huo w w' hw hw'
+
+theorem ws_independent_calcCenterOfMass (htree : TreeOrder m) (hok : AllJointOK m)
+    (st : QS α) (qd : VecN α) (qdd : Option (VecN α)) (wantAcc : Bool) :
+    (calcCenterOfMass m w st qd qdd wantAcc true).2
+      = (calcCenterOfMass m w' st qd qdd wantAcc true).2 :=
+  com_indep m st qd qdd wantAcc htree hok w w' hw hw'
+
+/-- (`hc`, which this routine accumulates without initialising it, does not enter the result) -/
+theorem ws_independent_calcZeroMomentPoint (htree : TreeOrder m) (hok : AllJointOK m)
+    (st : QS α) (qd qdd : VecN α) (normal point : V3 α) :
+    (calcZeroMomentPoint m w st qd qdd normal point true).2
+      = (calcZeroMomentPoint m w' st qd qdd normal point true).2 :=
+  zmp_indep m st qd qdd normal point htree hok w w' hw hw'
+
+theorem ws_independent_calcPotentialEnergy (htree : TreeOrder m) (hok : AllJointOK m)
+    (st : QS α) : (calcPotentialEnergy m w st true).2 = (calcPotentialEnergy m w' st true).2 :=
+  pe_indep m st htree hok w w' hw hw'
+
+theorem ws_independent_calcKineticEnergy (htree : TreeOrder m) (hjc : AllJcalc m)
+    (st : QS α) (qd : VecN α) :
+    (calcKineticEnergy m w st qd true).2 = (calcKineticEnergy m w' st qd true).2 :=
+  ke_indep m st qd htree hjc w w' hw hw'
+
+end independent
+
+/-! non-vacuity: the workspace after construction and its poisoned copy, on a branched model with a
+    revoluteZ, a general revolute, a spherical and a custom joint and one fixed body -/
+example := ws_independent_calcBodyToBaseCoordinates Ex.m Ex.w_fixed Ex.w'_fixed Ex.m_tree Ex.m_jcalc
+  Ex.st Ex.fid ⟨1, 2, 3⟩ (by decide)
+example := ws_independent_calcBaseToBodyCoordinates Ex.m Ex.w_fixed Ex.w'_fixed Ex.m_tree Ex.m_jcalc
+  Ex.st 3 ⟨1, 2, 3⟩ (by decide)
+example := ws_independent_calcBodyWorldOrientation Ex.m Ex.w_fixed Ex.w'_fixed Ex.m_tree Ex.m_jcalc
+  Ex.st Ex.fid (by decide)
+example := ws_independent_calcPointVelocity Ex.m Ex.w_fixed Ex.w'_fixed Ex.m_tree Ex.m_jcalc
+  Ex.st Ex.qd Ex.fid ⟨1, 2, 3⟩ Ex.fid_ok
+example := ws_independent_calcPointAcceleration Ex.m Ex.w_fixed Ex.w'_fixed Ex.m_tree Ex.m_ok
+  Ex.st Ex.qd Ex.qdd 3 ⟨1, 2, 3⟩ Ex.id3_ok
+example := ws_independent_calcPointJacobian Ex.m Ex.w_fixed Ex.w'_fixed Ex.m_tree Ex.m_ok
+  Ex.st Ex.fid ⟨1, 2, 3⟩ (fun _ _ => 0) Ex.fid_ok
+example := ws_independent_inverseDynamics Ex.m Ex.w_fixed Ex.w'_fixed Ex.m_tree Ex.m_ok
+  Ex.st Ex.qd Ex.qdd (fun _ => 0) (some (fun i => ⟨⟨1, 0, (i : Rat)⟩, ⟨0, 2, 0⟩⟩))
+example := ws_independent_nonlinearEffects Ex.mU Ex.wU_fixed Ex.wU'_fixed Ex.mU_tree Ex.mU_ok
+  Ex.mU_uo Ex.st Ex.qd (fun _ => 0) none
+example := ws_independent_crba Ex.m Ex.w_fixed Ex.w'_fixed Ex.m_tree Ex.m_ok Ex.st (fun _ _ => 0)
+example := ws_independent_forwardDynamics Ex.m Ex.w_fixed Ex.w'_fixed Ex.m_tree Ex.m_ok
+  Ex.st Ex.qd Ex.qdd (fun _ => 0) none
+example := ws_independent_calcMInvTimesTau Ex.mU Ex.wU_fixed Ex.wU'_fixed Ex.mU_tree Ex.mU_ok
+  Ex.mU_perm Ex.st Ex.qdd (fun _ => 0)
+example := ws_independent_calcCenterOfMass Ex.m Ex.w_fixed Ex.w'_fixed Ex.m_tree Ex.m_ok
+  Ex.st Ex.qd (some Ex.qdd) true
+example := ws_independent_calcZeroMomentPoint Ex.m Ex.w_fixed Ex.w'_fixed Ex.m_tree Ex.m_ok
+  Ex.st Ex.qd Ex.qdd ⟨0, 0, 1⟩ ⟨0, 0, 0⟩
+example := ws_independent_calcKineticEnergy Ex.m Ex.w_fixed Ex.w'_fixed Ex.m_tree Ex.m_jcalc
+  Ex.st Ex.qd
+
+/-! ### the side hypotheses of 4 cannot be dropped
+
+  The statement "`WSFixed m w → WSFixed m w' → tree order → equal results`" is false for arbitrary
+  `ModelS` values; each of the following machine-checked instances violates exactly one of the side
+  hypotheses used above (all of which hold for models built by `AddBody`). -/
+
+/-- `AllJcalc`: a joint of a type `jcalc` ignores leaves `X_lambda[1]` unwritten -/
+example : TreeOrder Ex.mBad ∧ WSFixed Ex.mBad Ex.wBad ∧ WSFixed Ex.mBad Ex.wBad' ∧
+    xbIdx Ex.mBad 1 < Ex.mBad.nBodies ∧
+    (calcBodyToBaseCoordinates Ex.mBad Ex.wBad Ex.st1 1 ⟨1, 2, 3⟩ true).2
+      ≠ (calcBodyToBaseCoordinates Ex.mBad Ex.wBad' Ex.st1 1 ⟨1, 2, 3⟩ true).2 :=
+  ⟨C04.Ex.mBad_tree, Ex.wBad_fixed, Ex.wBad'_fixed, by decide, by decide +kernel⟩
+
+/-- `AllJointOK`: a revoluteX joint with `mDoFCount = 3` makes the algorithms read `multdof3_S` -/
+example : TreeOrder Ex.m3 ∧ AllJcalc Ex.m3 ∧ WSFixed Ex.m3 Ex.w3 ∧ WSFixed Ex.m3 Ex.w3' ∧
+    (inverseDynamics Ex.m3 Ex.w3 Ex.st1 zeroVec (fun _ => 1) zeroVec none).2 0
+      ≠ (inverseDynamics Ex.m3 Ex.w3' Ex.st1 zeroVec (fun _ => 1) zeroVec none).2 0 :=
+  ⟨Ex.m3_tree, Ex.m3_jcalc, Ex.w3_fixed, Ex.w3'_fixed, by decide +kernel⟩
+
+/-- the body id must resolve to a body of the model -/
+example : TreeOrder Ex.m2 ∧ AllJointOK Ex.m2 ∧ WSFixed Ex.m2 Ex.w2 ∧ WSFixed Ex.m2 Ex.w2'' ∧
+    (calcBodyToBaseCoordinates Ex.m2 Ex.w2 Ex.st1 5 ⟨1, 2, 3⟩ true).2
+      ≠ (calcBodyToBaseCoordinates Ex.m2 Ex.w2'' Ex.st1 5 ⟨1, 2, 3⟩ true).2 :=
+  ⟨Ex.m2_tree, Ex.m2_ok, Ex.w2_fixed, Ex.w2''_fixed, by decide +kernel⟩
+
+/-- `UOrderOK` / `UOrderPerm`: with an empty `mJointUpdateOrder` the `jcalc` passes of
+    `NonlinearEffects` and `CalcMInvTimesTau` do nothing -/
+example : TreeOrder Ex.m2 ∧ AllJointOK Ex.m2 ∧ WSFixed Ex.m2 Ex.w2 ∧ WSFixed Ex.m2 Ex.w2' ∧
+    (nonlinearEffects Ex.m2 Ex.w2 Ex.st1 (fun _ => 1) zeroVec none).2 0
+      ≠ (nonlinearEffects Ex.m2 Ex.w2' Ex.st1 (fun _ => 1) zeroVec none).2 0 ∧
+    (calcMInvTimesTau Ex.m2 Ex.w2 Ex.st1 (fun _ => 1) zeroVec true).2 0
+      ≠ (calcMInvTimesTau Ex.m2 Ex.w2' Ex.st1 (fun _ => 1) zeroVec true).2 0 :=
+  ⟨Ex.m2_tree, Ex.m2_ok, Ex.w2_fixed, Ex.w2'_fixed, by decide +kernel, by decide +kernel⟩
+
+/-! ## 5. the `update_kinematics = false` variants after the documented update call
+
+  The coordinate and Jacobian routines with `update = true` *are* `UpdateKinematicsCustom(Q)` followed
+  by the `update = false` variant (equal as pairs, by unfolding).  For the velocity / acceleration
+  routines the update call and the clearing of `v[0]` / `a[0]` have to be commuted; no hypothesis is
+  needed.  `crba` needs `S`, which `jcalc` does not write for the fixed-axis joints: this is where
+  `WSFixed` is needed. -/
+
+theorem flag_cleared_calcBodyToBaseCoordinates (m : ModelS α) (w : WS α) (st : QS α) (id : Nat)
+    (p : V3 α) :
+    calcBodyToBaseCoordinates m (updateKinematicsCustom m w (some st) none none) st id p false
+      = calcBodyToBaseCoordinates m w st id p true := rfl
+
+theorem flag_cleared_calcBaseToBodyCoordinates (m : ModelS α) (w : WS α) (st : QS α) (id : Nat)
+    (p : V3 α) :
+    calcBaseToBodyCoordinates m (updateKinematicsCustom m w (some st) none none) st id p false
+      = calcBaseToBodyCoordinates m w st id p true := rfl
+
+theorem flag_cleared_calcBodyWorldOrientation (m : ModelS α) (w : WS α) (st : QS α) (id : Nat) :
+    calcBodyWorldOrientation m (updateKinematicsCustom m w (some st) none none) st id false
+      = calcBodyWorldOrientation m w st id true := rfl
+
+theorem flag_cleared_calcPointJacobian (m : ModelS α) (w : WS α) (st : QS α) (id : Nat)
+    (p : V3 α) (G : MatN α) :
+    calcPointJacobian m (updateKinematicsCustom m w (some st) none none) st id p G false
+      = calcPointJacobian m w st id p G true := rfl
+
+theorem flag_cleared_calcPointJacobian6D (m : ModelS α) (w : WS α) (st : QS α) (id : Nat)
+    (p : V3 α) (G : MatN α) :
+    calcPointJacobian6D m (updateKinematicsCustom m w (some st) none none) st id p G false
+      = calcPointJacobian6D m w st id p G true := rfl
+
+theorem flag_cleared_calcBodySpatialJacobian (m : ModelS α) (w : WS α) (st : QS α) (id : Nat)
+    (G : MatN α) :
+    calcBodySpatialJacobian m (updateKinematicsCustom m w (some st) none none) st id G false
+      = calcBodySpatialJacobian m w st id G true := rfl
+
+theorem flag_cleared_calcPointVelocity6D (m : ModelS α) (w : WS α) (st : QS α) (qd : VecN α)
+    (id : Nat) (p : V3 α) :
+    (calcPointVelocity6D m (updateKinematicsCustom m w (some st) (some qd) none) st qd id p
+      false).2 = (calcPointVelocity6D m w st qd id p true).2 :=
+  flag_pointVelocity6D m w st qd id p
+
+theorem flag_cleared_calcPointVelocity (m : ModelS α) (w : WS α) (st : QS α) (qd : VecN α)
+    (id : Nat) (p : V3 α) :
+    (calcPointVelocity m (updateKinematicsCustom m w (some st) (some qd) none) st qd id p
+      false).2 = (calcPointVelocity m w st qd id p true).2 :=
+  congrArg SV.v (flag_pointVelocity6D m w st qd id p)
+
+theorem flag_cleared_calcPointAcceleration6D (m : ModelS α) (w : WS α) (st : QS α)
+    (qd qdd : VecN α) (id : Nat) (p : V3 α) :
+    (calcPointAcceleration6D m (updateKinematics m w st qd qdd) st qd qdd id p false).2
+      = (calcPointAcceleration6D m w st qd qdd id p true).2 :=
+  flag_pointAcceleration6D m w st qd qdd id p
+
+theorem flag_cleared_calcPointAcceleration (m : ModelS α) (w : WS α) (st : QS α)
+    (qd qdd : VecN α) (id : Nat) (p : V3 α) :
+    (calcPointAcceleration m (updateKinematics m w st qd qdd) st qd qdd id p false).2
+      = (calcPointAcceleration m w st qd qdd id p true).2 :=
+  congrArg SV.v (flag_pointAcceleration6D m w st qd qdd id p)
+
+theorem flag_cleared_crba (m : ModelS α) (w : WS α) (hw : WSFixed m w) (htree : TreeOrder m)
+    (hok : AllJointOK m) (st : QS α) (H : MatN α) :
+    (crba m (updateKinematicsCustom m w (some st) none none) st H false).2
+      = (crba m w st H true).2 :=
+  flag_crba m st H htree hok w hw
+example := flag_cleared_crba Ex.m Ex.w' Ex.w'_fixed Ex.m_tree Ex.m_ok Ex.st (fun _ _ => 0)
+
+/-- `WSFixed` cannot be dropped from `flag_cleared_crba`: one revolute joint, `S[1]` overwritten -/
+example : TreeOrder Ex.m1 ∧ AllJointOK Ex.m1 ∧ ¬ WSFixed Ex.m1 Ex.wB ∧
+    (crba Ex.m1 (updateKinematicsCustom Ex.m1 Ex.wB (some Ex.st1) none none) Ex.st1
+        (fun _ _ => 0) false).2 0 0
+      ≠ (crba Ex.m1 Ex.wB Ex.st1 (fun _ _ => 0) true).2 0 0 :=
+  ⟨Ex.m1_tree, Ex.m1_ok, Ex.wB_not_fixed, by decide +kernel⟩
+
+/-! ## 6. the invariant cannot be dropped from 4 -/
+
+/-- One body on a revolute joint about `z` (tree order and joint arities are fine): the workspace
+    after construction and a copy whose `S[1]` — an entry that is written once at construction and
+    only read afterwards — holds another value give different inverse-dynamics torques. -/
+theorem wsfixed_needed :
+    TreeOrder Ex.m1 ∧ AllJointOK Ex.m1 ∧ WSFixed Ex.m1 Ex.wA ∧ ¬ WSFixed Ex.m1 Ex.wB ∧
+    (inverseDynamics Ex.m1 Ex.wA Ex.st1 zeroVec (fun _ => 1) zeroVec none).2 0
+      ≠ (inverseDynamics Ex.m1 Ex.wB Ex.st1 zeroVec (fun _ => 1) zeroVec none).2 0 :=
+  ⟨Ex.m1_tree, Ex.m1_ok, Ex.wA_fixed, Ex.wB_not_fixed, by decide +kernel⟩
+
+/-- the same for `forwardDynamics` and `calcPointVelocity` -/
+example :
+    (forwardDynamics Ex.m1 Ex.wA Ex.st1 zeroVec (fun _ => 1) zeroVec none).2 0
+      ≠ (forwardDynamics Ex.m1 Ex.wB Ex.st1 zeroVec (fun _ => 1) zeroVec none).2 0 := by
+  decide +kernel
+example :
+    (calcPointVelocity Ex.m1 Ex.wA Ex.st1 (fun _ => 1) 1 ⟨1, 0, 0⟩ true).2
+      ≠ (calcPointVelocity Ex.m1 Ex.wB Ex.st1 (fun _ => 1) 1 ⟨1, 0, 0⟩ true).2 := by
+  decide +kernel
+
 end Rbdl.C13
